@@ -462,6 +462,11 @@ static void srv_receive(int srvidx, int fd, int is_tcp, const uint8_t *msg, size
       tx->action = SA_SILENT;
     }
     sim_note("tx_undecodable");
+    /* E1 frame monitor (C03): what the library hands to a socket is always one whole, well-formed query -
+     * never an empty datagram, a bare length prefix or a torn message */
+    vh_violation(is_tcp ? "frame:undecodable-transmission:tcp" : "frame:undecodable-transmission:udp",
+                 "server %d received %zu octets on descriptor %d that do not decode as a DNS query (first octets %02x %02x %02x %02x)", srvidx, len, fd,
+                 len > 0 ? msg[0] : 0, len > 1 ? msg[1] : 0, len > 2 ? msg[2] : 0, len > 3 ? msg[3] : 0);
     if (srv_tx_hook && tx) {
       srv_tx_hook(tx, &q, msg, len);
     }
